@@ -2,6 +2,7 @@
 """Run every check against every behaviour-preserving refactoring under /verif/benign (expect: all quiet)."""
 import sys, os, subprocess, json, glob
 REPO = os.environ.get("REPO", "/tmp/wt2")
+MCAPVET = os.environ.get("MCAPVET", "/verif/bin/mcapvet")
 ENV = dict(os.environ, GOFLAGS="", GOPROXY="off", GOSUMDB="off", GOTOOLCHAIN="local"); ENV.pop("GOWORK", None)
 def sh(cmd, cwd=None):
     p = subprocess.run(cmd, shell=True, cwd=cwd, env=ENV, capture_output=True, text=True); return p.returncode, p.stdout + p.stderr
@@ -19,7 +20,7 @@ for bid in ids:
         if rc != 0: print(bid, "PATCH DOES NOT APPLY", o[-200:]); out[bid] = {"applies": False}; continue
         sh("git reset -q", cwd=REPO)
         rc, o = sh(f"go build ./... ", cwd=REPO + "/go/mcap")
-        rc2, o2 = sh(f"/verif/bin/mcapvet multi {','.join(props)} --repo {REPO} --verif /verif", cwd="/verif")
+        rc2, o2 = sh(f"{MCAPVET} multi {','.join(props)} --repo {REPO} --verif /verif", cwd="/verif")
         res = {}
         for l in o2.splitlines():
             if l.startswith("MULTI {"):
